@@ -14,6 +14,12 @@ from .version import _is_opmap
 
 
 # --------------------------------------------------------------------- helpers
+def _stmt(mod: Mod, n: ast.AST) -> ast.AST:
+    while not isinstance(n, ast.stmt):
+        n = mod.parent_of(n)
+    return n
+
+
 def opname_literals(test: ast.AST) -> List[Tuple[ast.Compare, List[str]]]:
     """(<x>.opname ==/in ...) comparisons inside an expression"""
     out = []
@@ -425,6 +431,22 @@ def int_intervals(ctx: Ctx) -> None:
                         ctx.R.ok("INT", f"{cm.name}.{fnname}: {norm(n)}")
                     else:
                         ctx.R.fail("INT", cm, n, "end-of-range test does not match the inclusive convention of _parse_exception_table")
+        # membership in range(start, end[, step]) is a half-open test
+        for n in ast.walk(fn):
+            if isinstance(n, ast.Compare) and len(n.ops) == 1 and isinstance(n.ops[0], (ast.In, ast.NotIn)) and isinstance(n.comparators[0], ast.Call) \
+                    and norm(n.comparators[0].func) == "range" and len(n.comparators[0].args) >= 2 and norm(n.comparators[0].args[0]) == "start" \
+                    and "end" in norm(n.comparators[0].args[1]):
+                consumers += 1
+                upper = norm(n.comparators[0].args[1])
+                if inclusive and upper == "end":
+                    ctx.R.fail("INT", cm, n, "the exception-table producer yields an inclusive end, but `range(start, end, ...)` excludes it: a position on the last instruction of a table entry "
+                               "is treated as uncovered (handler depth 0: a running frame's stack is trimmed to nothing, its contexts are lost)")
+                elif inclusive and upper in ("end + 1", "end + 2"):
+                    ctx.R.ok("INT", f"{cm.name}.{fnname}: {norm(n)}")
+                elif not inclusive and upper == "end":
+                    ctx.R.ok("INT", f"{cm.name}.{fnname}: {norm(n)}")
+                else:
+                    ctx.R.fail("INT", cm, n, "range() bound does not match the interval convention of _parse_exception_table")
     if consumers < 4:
         raise AnalysisError(f"INT: only {consumers} consumers found (4 confirmed by hand)")
 
@@ -481,6 +503,13 @@ def exi1_producers(ctx: Ctx) -> None:
                         ctx.R.ok("EXI-1", f"_lowlevel.{q}: {norm(st)[:80]}", "appended last on every path")
                 else:
                     ctx.R.fail("EXI-1", m, call, "a Context with is_exiting set is constructed outside the two producers: consumers rely on 'the exiting context is ret[-1]'")
+    # is_exiting may only be set by construction: an in-place store marks an object that other code may share
+    for m in ctx.P.analysed_mods():
+        for n in ast.walk(m.tree):
+            if isinstance(n, ast.Attribute) and n.attr == "is_exiting" and isinstance(n.ctx, ast.Store):
+                ctx.R.fail("EXI-1", m, n, "is_exiting is set in place on an existing Context instead of on a fresh copy: the marked object may be a still-active outer manager's entry "
+                           "(so that manager is reported as exiting and its obj overwritten) or a shared per-code-object Context (so later extractions see it as exiting)",
+                           construct=f"in-place {norm(m.parent_of(n))[:80]}")
     for q, c in producers.items():
         if c != 1:
             raise AnalysisError(f"EXI-1: producer {q} constructs is_exiting contexts {c} times (1 confirmed by hand)")
@@ -560,7 +589,7 @@ def join1(ctx: Ctx) -> None:
         ctx.R.fail("JOIN-1", mod, wb, "active with-blocks must be frame_details.blocks in their given (outermost-first) order, filtered by `handler in with_block_info`")
     ret = src.get("ret")
     if ret is None or not isinstance(ret.value, ast.ListComp):
-        raise AnalysisError("JOIN-1: ret list comprehension vanished")
+        raise AnalysisError("JOIN-1: ret list comprehension vanished (the join was restructured; ALIAS-1 / EXI-1 still apply)")
     lc = ret.value
     gen = lc.generators[0]
     t = norm(gen.target)
@@ -587,6 +616,45 @@ def join1(ctx: Ctx) -> None:
                 ctx.R.fail("JOIN-1", mod, n, "the exiting entry must be appended iff `exiting is not None`")
     if not found:
         raise AnalysisError("JOIN-1: exiting append vanished")
+
+
+def alias1(ctx: Ctx) -> None:
+    """ALIAS-1 partial Contexts of analyze_with_blocks are copied before use"""
+    mod = ctx.P.mod("_lowlevel")
+    fn = mod.fn("_contexts_active_by_trickery")
+    n_reads = 0
+    # ALIAS-1: the per-code-object partial Contexts are never handed out or mutated: every read of
+    # with_block_info[...] is the first argument of replace(...)
+    for n in ast.walk(fn):
+        if isinstance(n, ast.Subscript) and norm(n.value) == "with_block_info" and isinstance(n.ctx, ast.Load):
+            n_reads += 1
+            par = mod.parent_of(n)
+            if isinstance(par, ast.Call) and norm(par.func) in ("replace", "dataclasses.replace") and par.args and par.args[0] is n:
+                ctx.R.ok("ALIAS-1", f"{norm(n)} is copied with replace() before use")
+            elif isinstance(par, ast.Assign) and len(par.targets) == 1 and isinstance(par.targets[0], ast.Name):
+                # bound to a name: every later use of the name must be a read-only attribute access or replace(name, ...)
+                v = par.targets[0].id
+                bad = None
+                for u in ast.walk(fn):
+                    if isinstance(u, ast.Name) and u.id == v and isinstance(u.ctx, ast.Load):
+                        up = mod.parent_of(u)
+                        if isinstance(up, ast.Attribute) and isinstance(up.ctx, ast.Load):
+                            continue
+                        if isinstance(up, ast.Call) and norm(up.func) in ("replace", "dataclasses.replace") and up.args and up.args[0] is u:
+                            continue
+                        bad = up
+                if bad is None:
+                    ctx.R.ok("ALIAS-1", f"{norm(n)} (as `{v}`) is only read and copied with replace()")
+                else:
+                    ctx.R.fail("ALIAS-1", mod, bad, f"`{v}` is a partial Context taken from analyze_with_blocks' result and is used without being copied by replace(): the object handed out or mutated is the analysis' own, "
+                               "so obj / is_exiting written into it leak into other results (and into any cache of the analysis)", construct=f"uncopied use of {norm(n)}: {norm(_stmt(mod, bad))[:80]}")
+            else:
+                ctx.R.fail("ALIAS-1", mod, n, "a partial Context taken from analyze_with_blocks' result is used without being copied by replace(): the returned/mutated object is the analysis' own, "
+                           "so obj / is_exiting written into it later leak into other results (and into any cache of the analysis)", construct=f"uncopied {norm(n)} in {norm(_stmt(mod, n))[:80]}")
+        if isinstance(n, ast.Subscript) and norm(n.value) == "with_block_info" and isinstance(n.ctx, (ast.Store, ast.Del)):
+            ctx.R.fail("ALIAS-1", mod, n, "_contexts_active_by_trickery writes into the result of analyze_with_blocks")
+    if n_reads < 2:
+        raise AnalysisError("ALIAS-1: reads of with_block_info[...] vanished")
 
 
 # --------------------------------------------------------------------- LINE-1 / FALL-1
@@ -671,3 +739,56 @@ def fall1(ctx: Ctx) -> None:
         ctx.R.ok("FALL-1", "locals_by_id[id(value)] = name")
     else:
         ctx.R.fail("FALL-1", mod, fn, "locals_by_id must map id(value) -> name", construct="locals_by_id construction")
+
+
+# --------------------------------------------------------------------- OPC-5 version coverage of opcode tests
+def opcode_test_table(ctx: Ctx) -> Dict[str, List[str]]:
+    """every comparison against an opcode in the low-level modules -> versions under which it is reachable"""
+    table: Dict[str, Set[str]] = {}
+    for mn in ("_lowlevel", "_lowlevel_cpython_310", "_lowlevel_cpython_311"):
+        m = ctx.P.mod(mn)
+        reach = ctx.reach(m)
+        for n in ast.walk(m.tree):
+            if isinstance(n, ast.Compare):
+                has = False
+                for x in ast.walk(n):
+                    if isinstance(x, ast.Subscript) and isinstance(x.slice, ast.Constant) and isinstance(x.slice.value, str) and _is_opmap(ctx, m, x.value):
+                        has = True
+                    if isinstance(x, ast.Attribute) and x.attr == "opname":
+                        has = True
+                if has:
+                    key = f"{mn}.{m.qualname_of(n)}: {norm(n)}"
+                    table.setdefault(key, set()).update(reach.live.get(id(n), frozenset()))
+    return {k: sorted(v) for k, v in table.items()}
+
+
+def opc5_version_coverage(ctx: Ctx) -> None:
+    """OPC-5 an opcode test that was reachable under interpreter V on the reference tree is still reachable under V
+    (a per-opcode f_lasti / bytecode-shape convention must not silently stop being handled on one interpreter)"""
+    import json
+    import os
+    path = os.path.join(os.path.dirname(os.path.dirname(os.path.abspath(__file__))), "data", "opcode_tests.json")
+    ref = json.load(open(path))
+    cur = opcode_test_table(ctx)
+    missing = []
+    for key, want in ref.items():
+        if not want:
+            continue  # dead on every supported interpreter already (3.8 arm)
+        if key not in cur:
+            missing.append(key)
+            continue
+        lost = sorted(set(want) - set(cur[key]))
+        mn = key.split(".")[0]
+        mod = ctx.P.mod(mn)
+        if lost:
+            node = None
+            for n in ast.walk(mod.tree):
+                if isinstance(n, ast.Compare) and f"{mn}.{mod.qualname_of(n)}: {norm(n)}" == key:
+                    node = n
+            ctx.R.fail("OPC-5", mod, node, f"the opcode test `{key.split(': ', 1)[1][:80]}` was reachable under CPython {want} and is now reachable only under {cur[key]}: "
+                       f"the bytecode / f_lasti convention it handles is no longer handled on {lost} (no test on the 3.12-only suite can notice)",
+                       construct=f"{key.split(': ', 1)[1][:100]} lost {lost}")
+        else:
+            ctx.R.ok("OPC-5", key[:110], f"reachable under {cur[key]}")
+    if missing:
+        raise AnalysisError(f"OPC-5: {len(missing)} reference opcode test(s) are no longer present with the same text, e.g. `{missing[0][:100]}`: cannot decide version coverage for them")
